@@ -51,6 +51,7 @@ func checkC16(c *Ctx) {
 			Lengths        map[string]int `json:"lengths"`
 			ByClass        map[string]int `json:"by_class"`
 			PurityRepeats  int            `json:"purity_repeats"`
+			LongNames      int            `json:"long_names_sharing_prefixes"`
 			GenuineColl    int            `json:"genuine_collisions"`
 			Violations     []map[string]any `json:"violations"`
 			Samples        []map[string]any `json:"samples"`
@@ -69,6 +70,7 @@ func checkC16(c *Ctx) {
 		c.Count("driver.calls", rep.Calls)
 		c.Count("driver.salts", rep.Salts)
 		c.Count("driver.purity_repeats", rep.PurityRepeats)
+		c.Count("driver.long_names_sharing_prefixes", rep.LongNames)
 		c.Count("driver.genuine_hash_collisions", rep.GenuineColl)
 		for _, s := range rep.Samples {
 			c.Sample(s)
